@@ -109,6 +109,7 @@ def oracle(case, run):
     polled = {}            # kind -> condition seen by the poll that made it return
     since_reset_updates = 0
     rejected_this_epoch = False
+    epoch = 0
     for i, (ev, o) in enumerate(zip(case['events'], run)):
         for h in o['handles']:
             if h == 'Dead':
@@ -120,7 +121,7 @@ def oracle(case, run):
             k = FC.KINDS.index(ev[1])
             if prev['handles'][k] == 'Polling' and o['handles'][k] == 'Finished':
                 cond = FC.cond_holds(ev[1], ev[2:5])
-                polled[ev[1]] = cond
+                polled[ev[1]] = (cond, epoch)
                 if prev['waits'][k] and not cond:
                     yield ('poller-returned-early', {'kind': ev[1]},
                            'the %s poller returned while its wait was on and its condition false' % ev[1], i)
@@ -132,11 +133,16 @@ def oracle(case, run):
             if (a, c) == ('updating', 'loading'):
                 since_reset_updates = 0
                 rejected_this_epoch = False
+                epoch += 1
         for u in o['updates']:
             d = u['during']
             if d[0] != 'DoneCb':
                 continue
             cond = FC.cond_holds(d[1], u['env'])
+            if prev is not None and KIND_OF.get(prev['priority']) != d[1]:
+                yield ('weaker-waiter-fired', {'waiter': d[1]},
+                       'the %s waiter fired update_trigger while the strongest priority is %s'
+                       % (d[1], prev['priority']), i)
             if u['result'] == 'Rejected':
                 rejected_this_epoch = True
                 yield ('trigger-rejected-lost', {'cause': 'machine-error-in-done', 'state': prev['st'] if prev else None},
@@ -146,7 +152,12 @@ def oracle(case, run):
                 yield ('update-raised', {'outcome': u['result']},
                        'update_trigger of the %s waiter raised %s' % (d[1], u['result']), i)
             elif not cond:
-                cause = 'check-then-act' if d[1] in polled else 'no-poll'
+                # the thread's check (true, or made in an earlier reload cycle) is
+                # acted upon later by the reactor
+                seen = polled.get(d[1])
+                cause = ('no-poll' if seen is None else
+                         'check-then-act' if (seen[0] or seen[1] != epoch) else
+                         'fired-without-seeing-condition')
                 yield ('poll-callback-race', {'cause': cause},
                        'update_trigger fired by the %s waiter while its condition does not hold (world %s)'
                        % (d[1], u['env']), i)
